@@ -226,7 +226,11 @@ func (w *c15pf) line(c *Ctx, in string) {
 			before = len(t.conns) - t.closed
 			t.mu.Unlock()
 		}
-		res := w.dispatch(agent.SOCKET_COMMAND_RPORTFWD_REMOVE, i32(sid), i32(agent.SOCKET_TYPE_REVERSE_PORTFWD), i32(0x0100007f), i32(4444), i32(0x0100007f), i32(1))
+		typ := agent.SOCKET_TYPE_REVERSE_PORTFWD // the socket type the agent reports: the forward itself, or (3) a forwarded client's socket
+		if len(parts) > 2 {
+			typ, _ = strconv.Atoi(parts[2])
+		}
+		res := w.dispatch(agent.SOCKET_COMMAND_RPORTFWD_REMOVE, i32(sid), i32(typ), i32(0x0100007f), i32(4444), i32(0x0100007f), i32(1))
 		left := 0
 		if t := w.targets[sid]; t != nil {
 			for k := 0; k < 40; k++ {
